@@ -164,7 +164,26 @@ def ini_doc(rng, idx, outdir):
                 entries.append((full, out)); latest[full] = out
         return lines
 
-    lines = gen_items(rng.randint(0, 14), 0)
+    def add_entry(ls, name, raw):
+        ls.append(name + sep + raw)
+        out = expand(trim(raw), latest, env)
+        full = (state['section'] + '.' + name) if state['section'] else name
+        local.setdefault(state['section'], []).append(name)
+        entries.append((full, out)); latest[full] = out
+
+    pre = []
+    if idx % 20 == 11:
+        # one value with many distinct references (more than 64), repeated references, and a long chain of definitions
+        n = rng.choice([64, 65, 66, 100, 300])
+        for i in range(n):
+            add_entry(pre, 'w%d' % i, ''.join(rng.choice(IDENT) for _ in range(rng.randint(1, 3))))
+        add_entry(pre, 'sum', ''.join('${w%d}' % i for i in range(n)))
+        add_entry(pre, 'twice', ''.join('${w%d}${w%d}' % (i, (i * 7) % n) for i in range(0, n, 3)))
+        add_entry(pre, 'c0', 'x')
+        for i in range(1, rng.choice([70, 200])):
+            add_entry(pre, 'c%d' % i, '${c%d}' % (i - 1) + rng.choice(IDENT))
+        stats['many_references_documents'] = stats.get('many_references_documents', 0) + 1
+    lines = pre + gen_items(rng.randint(0, 14), 0)
     nl = '\r\n' if crlf else '\n'
     text = nl.join(lines) + (nl if rng.random() < 0.8 else '')
     base = os.path.join(outdir, 'i%05d' % idx)
